@@ -19,6 +19,8 @@ func main() {
 		rep = suiteParse("C01", *tier, *seed, *model, map[string]bool{"accept": true})
 	case "C05":
 		rep = suiteGet(*tier, *seed, *model)
+	case "C11":
+		rep = suiteEvaluators(*tier, *seed, *model)
 	case "C12":
 		rep = suiteScript(*tier, *seed, *model)
 	case "C03":
